@@ -111,6 +111,10 @@ def gen_wiki(rnd):
         w.add_page("Cyc A", 0, [(nextrev(), "#REDIRECT [[Cyc B]]", "Ann", False)], contributors=["Ann"])
         w.add_page("Cyc B", 0, [(nextrev(), "#REDIRECT [[Cyc A]]", "Ann", False)], contributors=["Ann"])
         reds += ["Cyc A", "Cyc B"]
+        if rnd.random() < 0.6:
+            # a redirect that leads into the circle without being part of it
+            w.add_page("Into cyc", 0, [(nextrev(), "#REDIRECT [[Cyc A]]", "Bob", False)], contributors=["Bob"])
+            reds.append("Into cyc")
     if rnd.random() < 0.2:
         w.add_page("Dangling", 0, [(nextrev(), "#REDIRECT [[Nowhere at all]]", "Ann", False)], contributors=["Ann"])
         reds.append("Dangling")
